@@ -65,6 +65,10 @@ func replay(kind string, input json.RawMessage) (bool, string) {
 		return e2.ReplayNum(input)
 	case "casetwins":
 		return e2.ReplayCaseTwins(input)
+	case "scale":
+		return e2.ReplayScale(input)
+	case "nest":
+		return e2.ReplayNest(input)
 	}
 	var in util.CellInput
 	if err := json.Unmarshal(input, &in); err != nil {
@@ -412,5 +416,7 @@ func run(r *chk.Run) {
 	e2.RunNumericShapes(r)
 	// signedness is looked up under the table's own name (names differing in case only)
 	e2.RunCaseTwins(r)
+	e2.RunScale(r, "wide-table", "kept-cells")
+	e2.RunNested(r)
 	r.SetExhaustive(true)
 }
